@@ -121,12 +121,12 @@ func (s *stubSched) trigger(ctx context.Context, duty core.Duty) {
 
 // stubFetcher proposes the node's own candidate data.
 type stubFetcher struct {
-	nd        *node
-	mu        sync.Mutex
-	subs      []func(context.Context, core.Duty, core.UnsignedDataSet) error
-	aggSigDB  func(context.Context, core.Duty, core.PubKey, core.SubcommitteeIndex) (core.SignedData, error)
-	awaitAtt  func(ctx context.Context, slot uint64, commIdx uint64) (*eth2p0.AttestationData, error)
-	proposed  map[core.Duty]bool
+	nd       *node
+	mu       sync.Mutex
+	subs     []func(context.Context, core.Duty, core.UnsignedDataSet) error
+	aggSigDB func(context.Context, core.Duty, core.PubKey, core.SubcommitteeIndex) (core.SignedData, error)
+	awaitAtt func(ctx context.Context, slot uint64, commIdx uint64) (*eth2p0.AttestationData, error)
+	proposed map[core.Duty]bool
 }
 
 func (f *stubFetcher) Subscribe(fn func(context.Context, core.Duty, core.UnsignedDataSet) error) {
